@@ -163,13 +163,13 @@ func TestVerifC08Cleanup(t *testing.T) {
 	}, func(c *kit.Case) {
 		r := c.R
 		or := r.Fork()
-		args, useR3 := c08GenArgs(r)
-		if len(args.EstimatedScalingFactors) == 0 {
-			args.EstimatedScalingFactors = map[corev1.ResourceName]int64{corev1.ResourceCPU: 85, corev1.ResourceMemory: 70}
+		caseArgs, useR3 := c08GenArgs(r)
+		if len(caseArgs.EstimatedScalingFactors) == 0 {
+			caseArgs.EstimatedScalingFactors = map[corev1.ResourceName]int64{corev1.ResourceCPU: 85, corev1.ResourceMemory: 70}
 		}
 		modes := []c08Mode{{}, {prod: true}, {aggType: "avg"}, {aggType: "p90", aggDur: 5 * time.Minute}}
 		for round := 0; round < rounds; round++ {
-			env := c08NewEnv(c, args, useR3, c08Base)
+			env := c08NewEnv(c, caseArgs.DeepCopy(), useR3, c08Base) // every round starts from the configuration as generated
 			m := c08NewModel(env, 1, 2)
 			m.labelLost = true
 			node := m.nodes[0]
@@ -196,7 +196,11 @@ func TestVerifC08Cleanup(t *testing.T) {
 					} else {
 						removal = "terminate"
 						rr := r.Fork()
-						g = append(g, func() { m.evUpdate(c, "G-pod: ", "terminate", P, m.mutate(rr, P, "terminate", now)) })
+						asp := []string{kit.Pick(rr, []string{"terminate", "kubelet-complete", "kubelet-complete"})}
+						g = append(g, func() {
+							nv, _ := m.mutate(rr, P, asp, now)
+							m.evUpdate(c, "G-pod: ", asp[0], P, nv)
+						})
 					}
 				} else {
 					m.evInformerAdd(c, "", P, obj)
